@@ -48,6 +48,13 @@ def build_fixture(root):
     shutil.copy(os.path.join(src, "Europe", "London"), os.path.join(tz2, "P2", "Both"))
     shutil.copy(os.path.join(src, "Europe", "Paris"), os.path.join(tz2, "P2", "Local"))
     shutil.copy(os.path.join(src, "Asia", "Kolkata"), os.path.join(tz, "P2", "Local"))
+    # symbolic links, as distributions install them (relative, absolute, dangling, to a directory)
+    os.makedirs(os.path.join(tz, "US"), exist_ok=True)
+    for link, target in (("US/Eastern", "../America/New_York"), ("AbsLink", os.path.join(tz, "X")), ("Dangling", "nowhere"), ("DirLink", "America")):
+        try:
+            os.symlink(target, os.path.join(tz, link))
+        except OSError:
+            pass
     open(os.path.join(tz, "Garbage"), "wb").write(b"this is not a zone file\n" * 10)
     open(os.path.join(tz, "Empty"), "wb").write(b"")
     types = [(-18000, False, b"EST"), (-14400, True, b"EDT")]
@@ -79,7 +86,7 @@ def run(pid, tier, seed):
              b"Nope/Missing", b"", b"Dir", b"Unreadable", b"Truncated", b"Appended1", b"Appended2", b"TruncNL", b"TruncFooter", b"TruncNoFooter", b"TruncMidRule", b"Garbage", b"Empty", b"RightSlim", b"RightFat", b"BadFooter", b"V1",
              b":X", b":America/New_York", b"UTC", b"UTC0", b"Fixed/UTC+01:00:00", b"Fixed/UTC-23:59:59", b"Fixed/UTC+24:00:01",
              b"file:", b"file:/", b"/", b"/nonexistent/zone", b"file:UTC", b"localtime", b"x/../X", b"America/New_York/", b"X ", b" X",
-             b"America//New_York", b"./X", b"X/.", b"America/./New_York", b"A" * 5000, b"X" + b"/" * 300, b"..", b".", b"America", b"America/",
+             b"US/Eastern", b"file:US/Eastern", b"AbsLink", b"Dangling", b"DirLink", b"America//New_York", b"./X", b"X/.", b"America/./New_York", b"A" * 5000, b"X" + b"/" * 300, b"..", b".", b"America", b"America/",
              (tzdir + "/X").encode(), b"file:" + (tzdir + "/Garbage").encode(), b"Etc/UTC", b"posixrules"]
     nf = os.path.join(work, "names.txt")
     open(nf, "w").write("".join(n.hex() + "\n" for n in names))
